@@ -4,6 +4,7 @@ validated against CCSpec by TLC (PTrace.tla)."""
 import glob
 import json
 import os
+import re
 import time
 
 from common import (SPEC, VERIF, ToolError, brief_ops, build_harness, classify, history_ops, log,
@@ -111,6 +112,31 @@ def parse_hist_stats(out):
     return deltas
 
 
+def mtrace(t, wd):
+    """Conformance of the implementation-shaped model on one observed trace (spec/MTrace.tla): every
+    logged call is replayed through the model's action; results, decapsulation matrix, access structure,
+    master / user / public key shapes and the identity of secrets are compared.  Never decides a
+    property: differences are reported as MODEL-DRIFT."""
+    from common import tlc
+    r = tlc(os.path.join(SPEC, "MTrace.tla"), os.path.join(SPEC, "MTrace.cfg"), wd,
+            env_extra={"TRACE": t}, workers=1, timeout=900, xmx="3g")
+    out = r["out"]
+    res = {"steps": 0, "matched": 0, "skipped": 0, "histories": 0, "drift": [], "states": r["distinct"]}
+    for l in out.splitlines():
+        if l.startswith('<<"MTRACE-DRIFT"'):
+            d = json.loads(json.loads(l[l.index(",") + 1:l.rindex(">>")].strip()))
+            d["trace"] = t
+            res["drift"].append(d)
+        elif l.startswith('<<"MTRACE-DONE"'):
+            m = re.search(r'"(\{.*\})"', l)
+            if m:
+                res.update(json.loads(json.loads('"' + m.group(1) + '"')))
+            res["done"] = True
+    if not res.get("done"):
+        res["error"] = "\n".join(x for x in out.splitlines() if "rror" in x or "line " in x)[-600:] or out[-600:]
+    return res
+
+
 def validate(traces, wd):
     from common import tlc
     results = []
@@ -131,7 +157,9 @@ def validate(traces, wd):
         stats = [json.loads(json.loads(l[l.index(",") + 1:l.rindex(">>")].strip()))
                  for l in out.splitlines() if l.startswith('<<"PTRACE-STATS"')]
         return dict(trace=t, viols=viols, stats=stats[0] if stats else {}, hist=parse_hist_stats(out),
-                    states=r["distinct"], transitions=r["generated"])
+                    states=r["distinct"], transitions=r["generated"],
+                    # (the repository's own tests log calls, not the master key after each call: no model replay)
+                    model={} if os.path.basename(t).startswith("repotests") else mtrace(t, wd))
 
     results = parallel(traces, one, workers=8)
     return results
@@ -145,6 +173,12 @@ def report(prop, tier, t0, results, mc_results, extra_cov=None, extra_viol=None)
     drift = [v for r in results for v in r["viols"] if "DRIFT" in v["p"]]
     for v in drift[:5]:
         print(f"MODEL-DRIFT op={v['detail'][0]} step={v.get('line')} history={v.get('hist')} trace={os.path.basename(v.get('trace', ''))}: {v['what']}")
+    mdrift = [d for r in results for d in r.get("model", {}).get("drift", [])]
+    for d in mdrift[:5]:
+        print(f"MODEL-DRIFT op={d['op']} line={d['line']} trace={os.path.basename(d['trace'])}: the model and the library differ on {'; '.join(d['what'])}")
+    for r in results:
+        if r.get("model", {}).get("error"):
+            print(f"MODEL-DRIFT trace={os.path.basename(r['trace'])}: the model could not follow the trace: {r['model']['error'][:300]}")
     known, new = classify(prop, viols)
     # model-checking findings
     mc_known, mc_new = [], []
@@ -203,7 +237,15 @@ def report(prop, tier, t0, results, mc_results, extra_cov=None, extra_viol=None)
         "rule": plan["rule"],
         "model_checking": [{k: m[k] for k in m if k != "out"} for m in mc_results],
         "trace_monitor_counters": total,
-        "model_drift_steps": len(drift),
+        "model_drift_steps": len(drift) + len(mdrift),
+        "model_conformance": {
+            "what": "every logged call replayed through the action of Covercrypt.tla (MTrace.tla); compared: result, "
+                    "decapsulation matrix, access structure, master/user/public key rights, chain lengths, flags, identity of secrets",
+            "steps_compared": sum(r.get("model", {}).get("steps", 0) for r in results),
+            "steps_matched": sum(r.get("model", {}).get("matched", 0) for r in results),
+            "steps_without_model_action": sum(r.get("model", {}).get("skipped", 0) for r in results),
+            "traces_not_followed": sum(1 for r in results if r.get("model", {}).get("error")),
+        },
         "known_finding_instances": len(known) + len(mc_known),
         "new_violation_instances": len(new) + len(mc_new),
         "exhaustive": False,
